@@ -69,4 +69,62 @@ def chunk (n : Nat) : Nat → List E → List (List E)
   | 0, _ => []
   | fuel + 1, es => if es.isEmpty then [] else es.take n :: chunk n fuel (es.drop n)
 
+/-! ### Overlapping dumps of one cache
+
+`writeDump` has three callers that are not serialised against each other (the
+periodic dump, `Close`, `GET /dump`). One `writeBlock` is three steps that
+other dumps can interleave with: marshal the block, `gw.Write(l)` (may block on
+the consumer), `gw.Write(b)`. Where the marshaled bytes live between the steps
+is the parameter `localBuf` (regenerated fact `c19WriterStateLocal`): a slice
+owned by this call, or a scratch buffer kept on the `Cache`. -/
+
+/-- One `writeDump` call in flight. -/
+structure Dump (E : Type) where
+  todo : List (List E)   -- blocks still to be written (the head is the one being written)
+  pc   : Nat             -- 0: before Marshal; 1: marshaled, `gw.Write(l)` pending; ≥ 2: `gw.Write(b)` pending
+  buf  : Bytes           -- the call's own slice `b`
+  len  : Nat             -- `len(b)` as this call sees it
+  out  : Bytes           -- plaintext handed to the compressor so far
+
+structure World (E : Type) where
+  dumps   : Nat → Dump E
+  scratch : Bytes        -- backing array of a buffer shared through the `Cache` (unused when `localBuf`)
+
+def Dump.fresh (blocks : List (List E)) : Dump E := ⟨blocks, 0, [], 0, []⟩
+
+def World.set (w : World E) (i : Nat) (d : Dump E) : World E :=
+  { w with dumps := fun j => if j = i then d else w.dumps j }
+
+/-- `MarshalAppend(buf[:0], …)` into an array that still holds older bytes. -/
+def overlay (new old : Bytes) : Bytes := new ++ old.drop new.length
+
+/-- Dump `i` takes its next step. -/
+def step (enc : List E → Bytes) (localBuf : Bool) (w : World E) (i : Nat) : World E :=
+  let d := w.dumps i
+  match d.pc with
+  | 0 =>
+    match d.todo with
+    | [] => w
+    | b :: _ =>
+      if localBuf then w.set i { d with pc := 1, buf := enc b, len := (enc b).length }
+      else { (w.set i { d with pc := 1, len := (enc b).length }) with scratch := overlay (enc b) w.scratch }
+  | 1 => w.set i { d with pc := 2, out := d.out ++ be64 d.len }
+  | _ + 2 =>
+    let body := if localBuf then d.buf else w.scratch.take d.len
+    w.set i { d with pc := 0, todo := d.todo.tail, out := d.out ++ body }
+
+/-- A schedule names the dump that moves next. -/
+def run (enc : List E → Bytes) (localBuf : Bool) : List Nat → World E → World E
+  | [], w => w
+  | i :: s, w => run enc localBuf s (step enc localBuf w i)
+
+/-- What dump `d` still has to emit (when its buffer is its own). -/
+def Dump.rest (enc : List E → Bytes) (d : Dump E) : Bytes :=
+  match d.pc with
+  | 0 => plain enc d.todo
+  | 1 => be64 d.len ++ (d.buf ++ plain enc d.todo.tail)
+  | _ + 2 => d.buf ++ plain enc d.todo.tail
+
+def Dump.finished (d : Dump E) : Bool := d.pc == 0 && d.todo.isEmpty
+
 end Model.C19
